@@ -61,27 +61,27 @@ class Ctx:
 
     # ---- symbolic inputs
     def int(self, name):
-        c = z3.Int(name)
+        c = z3.Int("v_" + name)
         self.inputs[name] = Py.int(c)
         return c
 
     def str(self, name):
-        c = z3.String(name)
+        c = z3.String("v_" + name)
         self.inputs[name] = Py.str(c)
         return c
 
     def bool(self, name):
-        c = z3.Bool(name)
+        c = z3.Bool("v_" + name)
         self.inputs[name] = Py.bool(c)
         return c
 
     def val(self, name):
-        c = z3.Const(name, Py)
+        c = z3.Const("v_" + name, Py)
         self.inputs[name] = c
         return c
 
     def seq(self, name):
-        c = z3.Const(name, S.SeqPy)
+        c = z3.Const("v_" + name, S.SeqPy)
         self.inputs[name] = Py.list(c)
         return c
 
